@@ -79,8 +79,8 @@ impl Interp {
                 r
             }
             "acc" => self.insts[&id(toks[1])].acc(toks[2]),
-            "guts" => self.insts[&id(toks[1])].guts(toks[2]),
-            "cfg" => self.insts[&id(toks[1])].cfg(),
+            "guts" => self.insts.get_mut(&id(toks[1])).expect("harness: unknown id").guts(toks[2]),
+            "cfg" => self.insts.get_mut(&id(toks[1])).expect("harness: unknown id").cfg(),
             "reset" => {
                 let i = id(toks[1]);
                 let b = self.insts.remove(&i).expect("harness: unknown id");
